@@ -32,7 +32,7 @@ func (c12) Describe() Description {
 			"after every call. Reference model = a record of the attributes with defaults; after every call the read-back equals the model up to one twip per length and the documented size " +
 			"recognition, a rejected call changed nothing, margins calls leave w:pgSz untouched, an orientation change swaps the physical dimensions exactly once; at every save w:pgSz / w:pgMar / " +
 			"w:docGrid (independent parser) equal the model in twips. Non-trivial = >= 3 page-setting calls of >= 2 kinds and >= 1 save or restart; distinct = distinct fingerprints.",
-		Assumptions: []string{"the search lane does not combine a custom size with landscape orientation and does not clear the document grid before another setter runs (listed findings, each with a witness)"},
+		Assumptions: []string{"the search lane does not clear the document grid before another setter runs (listed finding, with a witness)"},
 		RealVsStub:  map[string]string{"real": "page API, section-settings writer and reader", "stub": "map iteration order"},
 	}
 }
@@ -85,9 +85,6 @@ func (c12) Gen(r *sim.Rand, c *sim.Case, tier string) {
 				custom = false
 			}
 		case 2, 3:
-			if landscape && !Wild {
-				continue // listed finding: custom size in landscape
-			}
 			w, h := customDims()
 			ops = append(ops, sim.Op{K: "pg.custom", F: []float64{w, h}})
 			if w >= 12.7 && w <= 558.8 && h >= 12.7 && h <= 558.8 {
@@ -95,9 +92,6 @@ func (c12) Gen(r *sim.Rand, c *sim.Case, tier string) {
 			}
 		case 4, 5:
 			o := r.Pick("portrait", "landscape", "landscape", "portrait", "diagonal", "")
-			if o == "landscape" && custom && !Wild {
-				continue
-			}
 			ops = append(ops, sim.Op{K: "pg.orient", S: []sim.Str{sim.Str(o)}})
 			if o == "landscape" || o == "portrait" {
 				landscape = o == "landscape"
@@ -131,7 +125,7 @@ func (c12) Gen(r *sim.Rand, c *sim.Case, tier string) {
 			sz := c12sizeNames[r.Intn(5)]
 			or := r.Pick("portrait", "landscape")
 			var w, h float64
-			if r.Chance(0.3) && (or == "portrait" || Wild) {
+			if r.Chance(0.3) {
 				sz = "Custom"
 				w, h = customDims()
 			}
@@ -149,7 +143,7 @@ func (c12) Gen(r *sim.Rand, c *sim.Case, tier string) {
 		default:
 			ops = append(ops, sim.Op{K: r.Pick("para", "pbreak", "hdr"), S: []sim.Str{"default", "text"}})
 		}
-		_ = cleared
+		_, _, _ = cleared, landscape, custom
 	}
 	ops = sprinkleSaves(r, ops, 0, r.Range(2, 8), 0.5, 0)
 	c.Tasks = [][]sim.Op{ops}
